@@ -9,6 +9,7 @@ documented semantics for every document list and query, show where the repositor
 The no-panic / no-hang clause is exploration (malformed request stream of harness/query), not proof.
 -/
 import DefraModel.Proofs.QueryOrder
+import DefraModel.Proofs.QueryGroup
 namespace Defra.Props.C08
 open Defra Defra.Query
 
@@ -151,6 +152,49 @@ theorem avg_over_non_nil (q : Q) (f : String) (h : q.sel = .avg f) (docs : List 
   intro hnull
   rw [hnull] at hm
   simp [vEq] at hm
+
+/-! ### grouping by several fields (`Query/Group.lean`, compared with the implementation by `qg` lines) -/
+
+/-- **the groups partition the documents**: the groups are the distinct value tuples (each once), every document's
+    tuple is a group, the size of a group is the number of documents with that tuple, and the sizes add up to the
+    number of documents -/
+theorem groups_partition_the_documents (fs : List String) (docs : List Doc) :
+    ((groupCounts fs docs).map (·.1)).Nodup ∧
+    total (groupCounts fs docs) = docs.length ∧
+    (∀ u, groupSize (groupCounts fs docs) u = (docs.filter (fun d => tupleOf fs d = u)).length) ∧
+    (∀ k, k ∈ (groupCounts fs docs).map (·.1) ↔ ∃ d ∈ docs, tupleOf fs d = k) := by
+  have h := foldl_bump_spec fs docs [] (by simp)
+  unfold groupCounts
+  obtain ⟨h1, h2, h3, h4⟩ := h
+  refine ⟨h1, by simpa [total] using h2, ?_, ?_⟩
+  · intro u; simpa [groupSize] using h3 u
+  · intro k; simpa using h4 k
+
+/-- the implementation finds a document's group through a key computed from its values: with an injective key the
+    groups are those of the specification -/
+theorem grouping_through_an_injective_key {κ : Type} [DecidableEq κ] (key : List V → κ)
+    (hinj : ∀ a b, key a = key b → a = b) (fs : List String) (docs : List Doc) :
+    groupCountsK key fs docs = groupCounts fs docs := groupCountsK_eq key hinj fs docs
+
+/-- the key as it was before the repair 0a88df2 (per field: its index, `_`, the value printed plainly, `_`) is not
+    injective, and two different tuples fall into one group; quoting the text (what the repair does) separates them -/
+def plainKey (quote : Bool) (t : List V) : List Nat :=
+  (t.zipIdx 1).flatMap (fun p =>
+    let v := match p.1 with
+      | .str s => if quote then [34] ++ s ++ [34] else s
+      | .null => [60, 110, 105, 108, 62]
+      | .int i => [1000 + i.toNat]
+      | .flt n => [2000 + n.toNat]
+      | .bool b => [if b then 3001 else 3000]
+    [48 + p.2, 95] ++ v ++ [95])
+
+theorem plain_key_merges_two_groups :
+    let t1 : List V := [.str [120, 95, 50, 95, 121], .str [122]]     -- ("x_2_y", "z")
+    let t2 : List V := [.str [120], .str [121, 95, 50, 95, 122]]     -- ("x", "y_2_z")
+    t1 ≠ t2 ∧ plainKey false t1 = plainKey false t2 ∧ plainKey true t1 ≠ plainKey true t2 ∧
+    (groupCountsK (plainKey false) ["a", "b"] [⟨1, [("a", t1[0]!), ("b", t1[1]!)]⟩, ⟨2, [("a", t2[0]!), ("b", t2[1]!)]⟩]).length = 1 ∧
+    (groupCounts ["a", "b"] [⟨1, [("a", t1[0]!), ("b", t1[1]!)]⟩, ⟨2, [("a", t2[0]!), ("b", t2[1]!)]⟩]).length = 2 := by
+  decide
 
 /-! non-vacuity -/
 example : (evalSpec { filter := .gt "age" (.int 1), limit := 2, offset := 1, sel := .docs }
